@@ -11,13 +11,14 @@ an abstract value of type `α`.  The ordered dictionary `classes` (unique keys, 
 order) is a `Forest`: the list of sibling classes in first-child / next-sibling form, so that
 all functions below are structurally recursive.
 
-`_extend` keeps the payload of the class that is already in the tree and only merges the nested
-classes; the payload combination is a parameter `mp` so that the same definitions also describe
-the code with `proposed_fixes/C27-1.diff`:
+`_extend` merges the nested classes and keeps the payload of the class that is already in the
+tree — unless that class is still a `within` placeholder, which takes over the payload of the
+class merged into it (commit 07f5409 = `proposed_fixes/C27-1.diff`).  The payload combination is
+a parameter `mp` so that the same definitions describe the code before and after that commit:
 
-* `keepFirst`  — the code as it is: `self`'s payload always survives;
-* `fill ph`    — the proposed fix: a `within` placeholder (`ph`) takes the payload of the
-                 class merged into it.
+* `fill ph`    — **the code as it is**: a `within` placeholder (`ph`) takes the payload of the
+                 class merged into it, any other payload already in the tree survives;
+* `keepFirst`  — the code before 07f5409: `self`'s payload always survives (finding C27-F1).
 -/
 namespace PymocaVerif.Merge
 
@@ -67,10 +68,10 @@ def extendBy (mp : α → α → α) : Forest α → Forest α → Forest α
 /-- `self._extend(other)` / `Tree.extend`: the resulting `self.classes`. -/
 def extend (mp : α → α → α) (self other : Forest α) : Forest α := extendBy mp other self
 
-/-- The code as it is: the payload already in the tree is kept. -/
+/-- The code before commit 07f5409: the payload already in the tree is always kept. -/
 def keepFirst : α → α → α := fun a _ => a
 
-/-- With the proposed fix: a placeholder takes the payload merged into it. -/
+/-- The code as it is: a placeholder takes the payload merged into it. -/
 def fill [DecidableEq α] (ph : α) : α → α → α := fun a b => if a = ph then b else a
 
 /-- `file_to_tree`: nest the file's classes inside one placeholder package per name of the
@@ -100,6 +101,16 @@ def omerge (mp : α → α → α) : Option α → Option α → Option α
 
 /-- Same classes with the same payloads, whatever the order of siblings. -/
 def Equiv (a b : Forest α) : Prop := ∀ p, get a p = get b p
+
+/-- `Class._find_class(ref)` without imports, called on the class at path `scope`: the reference is
+    looked up in the class itself (`self.classes[ref.name]…`, every further name without going up),
+    then in the enclosing classes from the innermost outwards (`self.parent._find_class(ref)`).
+    The result is the full path of the class found (`full_reference()`). `scope.length` steps. -/
+def findClass (F : Forest α) (ref : List String) : (scopeRev : List String) → Option (List String)
+  | [] => if (get F ref).isSome then some ref else none
+  | n :: up =>
+    let here := (n :: up).reverse ++ ref
+    if (get F here).isSome then some here else findClass F ref up
 
 /-- All class paths of a forest in pre-order with their payloads (what the driver reports). -/
 def listing : Forest α → List String → List (List String × α)
